@@ -345,6 +345,35 @@ def _check(c):
         if o != ('o', 'true') and allexact:
             c.violation('conversion-transitive', {'kind': 'impl-vs-spec', 'input': '(%s %s to %s to %s) == (%s %s to %s)' % (xlit(x), A.name, B.name, C.name, xlit(x), A.name, C.name), 'impl': o})
 
+    # ---- configurations: the same conversions with the comma decimal separator and in coulomb/farad mode
+    def dec(x):
+        """a terminating decimal literal (dot style) for x, or the fraction form"""
+        d = x.denominator
+        while d % 2 == 0:
+            d //= 2
+        while d % 5 == 0:
+            d //= 5
+        if d != 1 or x < 0:
+            return xlit(x)
+        k = 0
+        while (x * 10 ** k).denominator != 1:
+            k += 1
+        n = int(x * 10 ** k)
+        t_ = str(n).rjust(k + 1, '0')
+        return t_ if k == 0 else t_[:-k] + '.' + t_[-k:]
+    sub = cases[:30] + r.sample(cases, min(len(cases), 500 if c.tier == 'quick' else 4000))
+    cfg = []
+    for A, B, x in sub:
+        cfg.append('@noapprox (%s %s to %s) to fraction' % (dec(abs(x)), A.name, B.name))
+        if r.random() < 0.5:
+            cfg.append('%s %s to %s' % (dec(abs(x)), A.name, B.name))
+        if r.random() < 0.2:
+            cfg.append('(%s %s) + (%s %s)' % (dec(abs(x)), A.name, dec(Fraction(r.randint(1, 999), 100)), B.name))
+    cfg += ['@noapprox (1 %s to %s) to fraction' % (n, si) for n, f, si in std] + ['1 %s to %s' % (n, si) for n, f, si in std]
+    cfg += ['1 inch to cm', '2.5 inches to cm', '1 lb to kg', '1 EUR to USD', '@noapprox (7 EUR to USD) to fraction', '1.5 km + 2.25 m', '0.001 mile to inch',
+            '1 hectare mm', '1 acre foot', '98.6 fahrenheit to celsius', '1 calorie to J', '1 gallon to liters', '1 atm to Pa', '1 knot to m/s']
+    U.config_sweep(c, cfg, 'conversion')
+
     simplify_checks(c, t, units, classes)
     currency_checks(c, t)
     history_checks(c, t, units, classes)
